@@ -61,7 +61,10 @@ func H_C15_SegwitEncodeRefuses() {
 // address for hrp "bc", re-encoding what was decoded gives the lower-cased input, and the result obeys
 // the BIP173/BIP350 rules (version range, program length, checksum variant).
 func h_c15_decenc(L int) {
-	s := string(zzverif.Bytes("s", L))
+	// the two hrp characters are case-split concretely (bc, BC, Bc, bC); H_C15_SegwitHrp shows that no
+	// other prefix is accepted. Everything after them is symbolic.
+	prefixes := []string{"bc", "BC", "Bc", "bC"}
+	s := prefixes[zzverif.Enum("prefix", 4)] + string(zzverif.Bytes("s", L-2))
 	ver, prog, er := SegwitDecode("bc", s)
 	if er != nil {
 		zzverif.Reach("refused")
@@ -74,10 +77,23 @@ func h_c15_decenc(L int) {
 	zzverif.Assert("C15.segwit.reencode", re == h_lower(s))
 }
 
-func H_X15_SegwitDecEnc() {
+// C15: whatever the string, acceptance for hrp "bc" implies that it starts with b/B c/C and '1'.
+func H_C15_SegwitHrp() {
+	L := zzverif.Len("L", 8, 20)
+	s := string(zzverif.Bytes("s", L))
+	_, prog, er := SegwitDecode("bc", s)
+	if er != nil {
+		zzverif.Reach("refused")
+		return
+	}
+	zzverif.Assert("C15.segwit.hrp", prog != nil && (s[0] == 'b' || s[0] == 'B') && (s[1] == 'c' || s[1] == 'C') && s[2] == '1')
+}
+
+func H_C15_SegwitDecEnc() {
 	var L int
 	if zzverif.Tier() == 0 {
-		L = zzverif.Len("L", 8, 16)
+		lens := []int{13, 14, 15, 16, 17, 18, 19, 20, 21, 22, 23, 24, 25, 26}
+		L = lens[zzverif.Enum("Lidx", len(lens))]
 	} else {
 		L = zzverif.Len("L", 8, 44)
 	}
